@@ -96,6 +96,7 @@ CANARIES = {
     "C11": [
         ("overwrite-refusal-removed", "stix2/datastore/filesystem.py", "drop-raise-guard", ["_check_path_and_write", "os.path.isfile"], "C11.check-before-write"),
         ("newest-reversed", "stix2/datastore/memory.py", "reverse-compare", ["_ObjectFamily.add"], "C11.newest"),
+        ("newest-pointer-stale-on-equal-modified", "stix2/datastore/memory.py", "text", ['obj["modified"] >= self.latest_version["modified"]', 'obj["modified"] > self.latest_version["modified"]'], "C11.newest"),
     ],
     "C12": [
         ("operator-flipped", "stix2/datastore/filters.py", "flip-compare", ["Filter._check_property", "GtE -> Gt", "stix_obj_property >= filter_value"], "C12.operator-table"),
@@ -106,6 +107,7 @@ CANARIES = {
     "C13": [
         ("copy-removed", "stix2/properties.py", "unwrap-copy", ["ExtensionsProperty.clean", "copy.deepcopy"], "C13.no-param-mutation"),
         ("setattr-guard-inverted", "stix2/base.py", "negate-if", ["_STIXBase.__setattr__"], "C13.immutable-api"),
+        ("underscore-properties-assignable", "stix2/base.py", "text", ['        if not name.startswith("_") or \\\n                name in self.__dict__.get("_inner", ()):', '        if not name.startswith("_"):'], "C13.immutable-api"),
     ],
     "C14": [
         ("version-positional", "stix2/datastore/memory.py", "kw-to-positional", ["_add", "version=version", "parse("], "C14.binding"),
